@@ -384,7 +384,9 @@ class ScriptAction:
                     out = 'refused:' + type(e).__name__
             elif kind == 'scratch_env':
                 ids = [d.id for d in list(w.devs.values())[:4] if hasattr(d, 'id')] or [1]
-                instrument.scratch_environment(ids + [-1] if op.get('with_minus_one') else ids)
+                w.extra_scratch = getattr(w, 'extra_scratch', [])
+                w.extra_scratch.append(instrument.scratch_environment(ids + [-1] if op.get('with_minus_one') else ids,
+                                                                      pools=op.get('pools')))
                 out = len(ids)
             elif kind == 'sched_unregister':
                 out = w.devs[op['sched']].unregister_object(w.devs[op['target']])
@@ -483,7 +485,7 @@ class ScriptAction:
 
 
 core.load_library()
-from simprocesd.model.factory_floor import PartProcessor, PartGenerator, Part, Batch  # noqa: E402
+from simprocesd.model.factory_floor import PartProcessor, PartGenerator, Part, Batch, PartHandler  # noqa: E402
 
 
 def order_cost(item, tag, n_done):
@@ -659,6 +661,24 @@ class HSetupProc(HProc):
         self._try_move_part_to_output()
 
 
+class HLenHandler(PartHandler):
+    """A user's station type whose length is the number of parts it has passed on so far (so it is falsy until the
+    first part has left it)."""
+
+    def __init__(self, *a, **k):
+        self.h_seen = 0
+        super().__init__(*a, **k)
+
+    def __len__(self):
+        return self.h_seen
+
+    def _pass_part_downstream(self):
+        had = self._output
+        super()._pass_part_downstream()
+        if had is not None and self._output is None:
+            self.h_seen += 1        # (counts the parts that have left it)
+
+
 def classes():
     return {'HProc': HProc, 'HGen': HGen}
 
@@ -730,7 +750,8 @@ def build(spec, bus=None, script=True, system=None, known=None):
                 kw['starting_parts'] = it['budget']
             d = Source(name=nm, part_generator=gen, cycle_time=it['ct'], **kw)
         elif k == 'handler':
-            d = PartHandler(name=nm, upstream=ups, cycle_time=it['ct'], value=it.get('value', 0))
+            d = (HLenHandler if it.get('len_dev') else PartHandler)(name=nm, upstream=ups, cycle_time=it['ct'],
+                                                                    value=it.get('value', 0))
         elif k == 'processor':
             if it.get('setup'):
                 d = HSetupProc(nm, ups, it['ct'], dict(it['res']) if it.get('res') else None,
